@@ -229,6 +229,17 @@ async def _c12_view_case(case, env):
             o = tv[t]
             ev.event_result_update(handler=h, result=o)
         objs.append(o)
+    # the views are defined in handler (registration) order, whatever the order in which the handlers finished: give every other case
+    # completion / start times that run against the handler order (what a parallel_handlers bus produces)
+    rs_all = list(ev.event_results.values())
+    if len(rs_all) > 1 and int(hashlib.sha1(json.dumps([case['rs'], case['f'], case['any'], case['none']]).encode()).hexdigest(), 16) % 2 == 0:
+        import datetime as _dt
+        base = _dt.datetime.now(_dt.timezone.utc)
+        for k, r in enumerate(rs_all):
+            if r.completed_at is not None:
+                r.completed_at = base + _dt.timedelta(milliseconds=10 * (len(rs_all) - k))
+            if r.started_at is not None:
+                r.started_at = base - _dt.timedelta(milliseconds=10 * (k + 1))
     ev.event_completed_signal.set()
     errobjs = list(objs)
     objs = [None if t in ('err1', 'err2') else o for t, o in zip(case['rs'], objs)]   # an error result holds no value
